@@ -6,6 +6,13 @@ ENGINES = [
 ]
 NOTES = 'All checks: ./check <ID> [--tier quick|thorough] [--replay FILE]; exit 0 held / 1 violation / 2 harness problem or inconclusive. See DESIGN.md.'
 CHECKS = {
+ 'C05': {
+  'engine': 'simrun (Hypothesis, seeded real RNG)',
+  'technique': 'Hypothesis over simulators x initial-set passing forms (containers, single node, positional) with metamorphic equality across forms and a direct oracle for row 0 / statuses at tmin / rho counts / EoNError',
+  'design_ref': 'DESIGN.md section 3 C05',
+  'text': 'For every SIR/SIS simulator and wrapper, generated disjoint I0/R0 are passed as list, tuple, set, frozenset, dict keys, range, numpy array or single node, by keyword or positionally; row 0, get_statuses/node_status at tmin and the histories of initially recovered nodes must equal the request, order-preserving forms must give identical output under the same seed, rho must infect exactly int(round(N*rho)) nodes, rho together with initial_infecteds must raise EoNError (incl. rho=0.0 and node 0), and basic_discrete_SIR must equal discrete_SIR with the default rule.',
+  'note': 'Single node as initial_recovereds only where documented. Table rules with events exactly at tmin are left to C10/C11.',
+ },
  'C04': {
   'engine': 'simrun (Hypothesis, seeded real RNG) + forkrng for exact horizon hits',
   'technique': 'Hypothesis-generated simulator calls (12 simulators, both return modes) checked against a two-directional validity predicate; table-driven and forked-clock runs that put events exactly on tmax',
